@@ -313,6 +313,17 @@ def r3(ctx):
             if t[2 * d + W] != flip_bb(g, t[2 * d2 + B]):
                 bad.append((g.name(d), f"{name}[{g.name(d)}][White] is not the flip of [{g.name(d2)}][Black]"))
         ctx.bulk(name, 64, bad, "pawn table not colour-symmetric")
+    # per-square tables the evaluation reads without looking at the colour: invariant under the rank flip
+    for key_ in sorted(k for k, v in P.values.items() if v.get("crate") == "chess_engine" and v.get("kind") == "static" and v.get("ty") == "[u8; 64]" and "::{" not in k):
+        ctx.used_static(key_)
+        tb = P.value_bytes(key_)
+        bad = []
+        for d in range(64):
+            f, r = g.coord[d]
+            d2 = g.sq[(f, 7 - r)]
+            if tb[d] != tb[d2]:
+                bad.append((g.name(d), f"{key_}[{g.name(d)}] = {tb[d]} but [{g.name(d2)}] = {tb[d2]}"))
+        ctx.bulk(f"{key_.rsplit('::', 1)[1]} rank-flip invariant", 64, bad, "a per-square evaluation table treats a square and its mirror differently")
     key = "chess_movegen::castle_rights::CASTLE_RIGHTS_PER_SQ"
     ctx.used_static(key)
     raw = P.value_bytes(key)
